@@ -81,8 +81,8 @@ add("C11", "proof",
 add("C12", "other",
     "Bounded stand-in by execution: 68 definitions (the whole layer-C corpus plus 14 C12-specific ones: the formerly non-terminating five-rule definition, contexts of every shape, repeated "
     "characters in sets, nested optional/starred operands, several rule sets, large built-ins, tens of rules, several lexers per module) are expanded by the real macro and compiled, each under a 120 s watchdog.",
-    "A finite corpus; 'expanding twice gives the same code' is a two-run property no contract expresses and is not checked. Termination of update_backtracks for every DFA is proved only when the "
-    "Verus unit update_backtracks is listed in the evidence.",
+    "A finite corpus; 'expanding twice gives the same code' is a two-run property no contract expresses: eight definitions are expanded twice in separate compiler processes and compared (execution only). "
+    "Termination of update_backtracks for every DFA is proved by the Verus unit update_backtracks (listed in the evidence).",
     "expansion + compilation of a corpus under a watchdog (bounded stand-in); Verus termination proof of the backtrack analysis when present", "5 C12")
 add("C13", "proof",
     "Composition: (1) Verus contract of the real table generator (canonical list of any predicate); (2) the real generator on the 20 README predicates equals the table the real name lookup returns, "
